@@ -36,7 +36,7 @@ var Corpus = []string{
 var EditAlphabet = append(append([]string{}, Alphabets[0].Tokens...), "-1", "Int")
 
 // ReducedEditAlphabet: second edits of the quick tier.
-var ReducedEditAlphabet = []string{"{", "}", "(", ")", ":", "$", "@", "...", "!", "[", "]", "=", "|", "&", "a", "on", `"s"`, "1"}
+var ReducedEditAlphabet = []string{"{", "}", "(", ")", ":", "a", "@", `"s"`, "$", "...", "!", "[", "]", "=", "|", "&", "on", "1"}
 
 // Neighbourhood enumerates, for every corpus sentence, the sentence itself, every
 // single-token edit (delete, replace by each alphabet token, insert each alphabet token in
